@@ -7,9 +7,11 @@ import (
 	"encoding/json"
 	"flag"
 	"fmt"
+	"io"
 	"os"
 	"os/exec"
 	"path/filepath"
+	"regexp"
 	"runtime"
 	"runtime/debug"
 	"sort"
@@ -167,7 +169,8 @@ func supervise(prop, tier string) int {
 	defer os.Remove(journal)
 	cmd := exec.Command(exe, os.Args[1:]...)
 	cmd.Env = append(os.Environ(), "VERIF_WORKER=1", "VERIF_JOURNAL="+journal)
-	cmd.Stdout, cmd.Stderr = os.Stdout, os.Stderr
+	tail := &tailWriter{max: 256 << 10}
+	cmd.Stdout, cmd.Stderr = os.Stdout, io.MultiWriter(os.Stderr, tail)
 	start := time.Now()
 	err = cmd.Run()
 	code := 0
@@ -201,6 +204,20 @@ func supervise(prop, tier string) int {
 			}
 		}
 	}
+	// a crash the Go runtime does not let anybody recover from (fatal error: unlock of unlocked mutex,
+	// concurrent map writes, stack exhaustion ...) or a panic on a goroutine nobody guards, raised with the
+	// library's own frames on the crashing goroutine, is the library not returning normally: a violation of
+	// its own. Running out of memory is not attributed (the harness's scale, not the library's doing).
+	if msg, trace := libraryCrash(tail.String()); msg != "" && matchFinding(fs, prop, "crash:"+msg) == nil {
+		nviol++
+		h := sha1.Sum([]byte("crash:" + msg))
+		path := filepath.Join(verifRoot, "replays", fmt.Sprintf("%s-%x.json", prop, h[:6]))
+		os.MkdirAll(filepath.Join(verifRoot, "replays"), 0o755)
+		rep := map[string]any{"property": prop, "key": "crash:" + msg, "detail": trace, "tier": tier, "note": "the worker process crashed inside the library; re-run the check to reproduce (no single case can be named: the runtime killed the process)"}
+		out, _ := json.MarshalIndent(rep, "", " ")
+		os.WriteFile(path, append(out, '\n'), 0o644)
+		fmt.Printf("VIOLATION property=%s replay=%s\n  key=crash:%s\n  the process running the check was killed by the Go runtime inside the library: %s\n", prop, path, msg, oneLine(trace, 900))
+	}
 	fmt.Printf("INFRASTRUCTURE: the worker process ended abnormally (exit code %d) after %.1fs; %d violation class(es) had been recorded\n", code, time.Since(start).Seconds(), nviol)
 	if nviol > 0 {
 		c := &Ctx{Prop: prop, Tier: tier, Start: start, Bound: map[string]any{}, Extra: map[string]any{"worker_died": true}, Rule: "the worker process died; only the violations journalled before that are reported"}
@@ -214,6 +231,75 @@ func supervise(prop, tier string) int {
 		return 1
 	}
 	return 2
+}
+
+// tailWriter keeps the beginning of what is written to it (a crash report starts with its cause).
+type tailWriter struct {
+	mu  sync.Mutex
+	buf []byte
+	max int
+}
+
+func (t *tailWriter) Write(p []byte) (int, error) {
+	t.mu.Lock()
+	defer t.mu.Unlock()
+	if room := t.max - len(t.buf); room > 0 {
+		if len(p) < room {
+			room = len(p)
+		}
+		t.buf = append(t.buf, p[:room]...)
+	}
+	return len(p), nil
+}
+
+func (t *tailWriter) String() string {
+	t.mu.Lock()
+	defer t.mu.Unlock()
+	return string(t.buf)
+}
+
+// libraryCrash looks for a runtime crash report in the worker's stderr and returns its message and the
+// crashing goroutine's trace if that trace runs through the library; ("", "") otherwise.
+func libraryCrash(stderr string) (msg, trace string) {
+	i := strings.Index(stderr, "fatal error: ")
+	kind := "fatal error: "
+	if j := strings.Index(stderr, "\npanic: "); i < 0 || (j >= 0 && j < i) {
+		if j < 0 {
+			if !strings.HasPrefix(stderr, "panic: ") {
+				return "", ""
+			}
+			j = -1
+		}
+		i, kind = j+1, "panic: "
+	}
+	rest := stderr[i:]
+	line := rest
+	if k := strings.Index(rest, "\n"); k >= 0 {
+		line = rest[:k]
+	}
+	msg = strings.TrimPrefix(line, kind)
+	low := strings.ToLower(msg)
+	if strings.Contains(low, "out of memory") || strings.Contains(low, "cannot allocate") {
+		return "", ""
+	}
+	// the first goroutine block after the message is the crashing one
+	g := strings.Index(rest, "\ngoroutine ")
+	if g < 0 {
+		return "", ""
+	}
+	block := rest[g+1:]
+	if k := strings.Index(block, "\n\n"); k >= 0 {
+		block = block[:k]
+	}
+	if !strings.Contains(block, "github.com/JesseCoretta/go-stackage.") {
+		return "", ""
+	}
+	// strip addresses so that the key is stable
+	msg = regexp.MustCompile(`0x[0-9a-f]+`).ReplaceAllString(msg, "0x..")
+	if len(msg) > 120 {
+		msg = msg[:120]
+	}
+	return msg, kind + msg + "\n" + block
 }
 
 func (c *Ctx) NumViolKeys() int {
@@ -502,6 +588,7 @@ func main() {
 		fmt.Println("INFRASTRUCTURE: watchdog expired (a call into the library never returned?); no verdict")
 		os.Exit(2)
 	}()
+	envPrelude()
 	if *replay != "" {
 		data, err := os.ReadFile(*replay)
 		if err != nil {
@@ -510,6 +597,10 @@ func main() {
 		}
 		var rep struct {
 			Case json.RawMessage `json:"case"`
+		}
+		if strings.Contains(string(data), `"key": "crash:`) {
+			fmt.Println("replay: this violation is a crash of the whole process inside the library (see \"detail\" in the file); re-run the check itself to reproduce it")
+			os.Exit(1)
 		}
 		if err := json.Unmarshal(data, &rep); err != nil || ch.Replay == nil {
 			fmt.Fprintln(os.Stderr, "replay not supported for this file/property", err)
